@@ -61,6 +61,18 @@ def plan(tier, seed):
     return [dict(configs=cfgs[j:j + 6]) for j in range(0, len(cfgs), 6)]
 
 
+def csv_epochs(rows):
+    """Epoch column of a CSV log as ints; a row that is not data (a repeated header, a torn line) is kept as
+    its raw text so that the comparison with the expected schedule fails instead of the harness."""
+    out = []
+    for r in rows:
+        try:
+            out.append(int(r["epoch"]))
+        except (TypeError, ValueError, KeyError):
+            out.append(repr(r.get("epoch")))
+    return out
+
+
 def onepass(xs):
     n = len(xs)
     m = math.fsum(xs) / n
@@ -167,6 +179,12 @@ def run_history(cfg, tape):
         except LibRaised as e:
             return [(f"periodic:fit-raised:{e.kind}:{e.site}", dict(error=str(e), tb=e.tb))], 0
         nev = len(rec)
+        # "the run": epochs starting_epoch..epochs of each fit call, cut short only by the injected stop
+        for fi, (lo, hi) in enumerate([(cfg["e0"], cfg["E"])] + ([(e1, e1 + n2 - 1)] if cfg["mode"] != "single" else [])):
+            got = [r["epoch"] for r in rec if r["fit"] == fi]
+            want = list(range(lo, hi + 1))
+            if got != (want[:len(got)] if fi == 0 and state["injected"] else want):
+                out.append(("periodic:run-epochs-differ-from-starting_epoch..epochs", dict(fit=fi, got=got, want=want)))
         keep = [r for r in rec if not (cfg["mode"] == "two-clear" and r["fit"] == 0)]
 
         def sched(p, rs):
@@ -189,7 +207,7 @@ def run_history(cfg, tape):
                 out.append(("periodic:MetricEvaluator:records-differ-from-values-computed-at-those-epochs", dict(a=list(map(float, me.a)) if len(sm) else [], want=[r["a"] for r in sm], last=str(me.last))))
             rows_csv = list(csv.DictReader(open(os.path.join(d, "m.csv"))))
             sm_all = sched(cfg["p1"], rec)
-            if [int(r["epoch"]) for r in rows_csv] != [r["epoch"] for r in sm_all] or any(not feq(float(x["a"]), r["a"]) or float(x["b"]) != 2.0 for x, r in zip(rows_csv, sm_all)):
+            if csv_epochs(rows_csv) != [r["epoch"] for r in sm_all] or any(not feq(float(x["a"]), r["a"]) or float(x["b"]) != 2.0 for x, r in zip(rows_csv, sm_all)):
                 out.append(("periodic:MetricEvaluator:csv-log-differs", dict(rows=[r["epoch"] for r in rows_csv], want=[r["epoch"] for r in sm_all])))
         # ---- observable evaluator: statistics recomputed from captured chain states
         so = sched(cfg["p2"], keep)
@@ -221,7 +239,7 @@ def run_history(cfg, tape):
                 if not ok:
                     out.append(("periodic:ObservableEvaluator:records-differ-from-statistics-of-drawn-samples", dict(epochs=ep_o)))
                 rows_csv = list(csv.DictReader(open(os.path.join(d, "o.csv"))))
-                if [int(r["epoch"]) for r in rows_csv] != [r["epoch"] for r in so_all]:
+                if csv_epochs(rows_csv) != [r["epoch"] for r in so_all]:
                     out.append(("periodic:ObservableEvaluator:csv-log-differs", dict(rows=[r["epoch"] for r in rows_csv], want=[r["epoch"] for r in so_all])))
                 elif len(so) and not feq(float(rows_csv[-1]["SigmaZ_mean"]), oe.get_value("SigmaZ")["mean"]):
                     out.append(("periodic:ObservableEvaluator:csv-log-differs", dict(last_row=rows_csv[-1])))
